@@ -271,6 +271,11 @@ func (c *Conn) Close() error {
 	if err != nil {
 		return err
 	}
+	// The stream is over: packets that still name it must be refused as for any
+	// unknown session instead of being stored and signalled on the closed
+	// channel. (The serve loop is waiting for respReadCloser to be closed, so no
+	// packet is handled between the two steps.)
+	c.handler.rmStream(c.stanzaWriter.sid)
 	close(c.readReady)
 	return respReadCloser.Close()
 }
